@@ -719,6 +719,15 @@ def cycle_family():
     fam.append({'name': 'cyc_ids', 'plain': ['m', 'n', 'top0', 'fill'] + srcs, 'rules': rules, 'init': srcs + list(rules),
                 'cmds': [('redo', ['m'], False, 1), ('redo', ['fill'], False, 1), ('redo', ['top0'], False, 1)],
                 'user': [], 'rm': [], 'doedits': [], 'bounds': (3, 3), 'skip_invariants': ['CycleReported']})
+    # a cycle that comes into being by an edit, entered through a target that has already run redo-stamp (its record says
+    # "checked in this run" while its script is still running) when the request for it comes back
+    fam.append({'name': 'cyc_stamp', 'plain': ['a', 'b', 's', 'top'],
+                'rules': {'a.do': [{'a': [out('stdout', tag=5), stamp(), ifchange('b')]}],
+                          'b.do': [{'b': [ifchange('s'), out('stdout', 's')]}, {'b': [ifchange('a'), out('stdout', 'a')]}],
+                          'top.do': [{'top': [ifchange('a'), out('stdout', 'a')]}]},
+                'init': ['s', 'a.do', 'b.do', 'top.do'],
+                'cmds': [('ifchange', ['a'], False, 1), ('ifchange', ['top'], False, 1), ('redo', ['a'], False, 2)],
+                'user': [], 'rm': [], 'doedits': ['b.do'], 'bounds': (3, 2), 'skip_invariants': ['CycleReported']})
     return [complete(p) for p in fam]
 
 
